@@ -9,11 +9,16 @@ _cache = {}
 
 
 def exploration(ctx):
-    key = id(ctx.model)
-    if key not in _cache:
-        cls = ctx.model.cls(RESULT_CLASS)
-        _cache[key] = typestate.explore(ctx, cls)
-    return _cache[key]
+    # cached on the model object itself (an id()-keyed table can hand out the exploration of a
+    # model that was garbage collected when the same address is re-used: self-test workers analyse
+    # many models in one process)
+    m = ctx.model
+    ex = getattr(m, '_ts_exploration', None)
+    if ex is None:
+        cls = m.cls(RESULT_CLASS)
+        ex = typestate.explore(ctx, cls)
+        m._ts_exploration = ex
+    return ex
 
 
 def record_units(rep, ex):
@@ -127,7 +132,10 @@ def hook_balance(ctx, rep, rule):
 def streams_restored(ctx, rep, rule):
     ex = exploration(ctx)
     hits, n = [], 0
-    for tr in ex.transitions:
+    # including the words on which the running test re-bound sys.stdout / sys.stderr itself (to a
+    # stream of its own, the "redirect to StringIO" idiom) and did not put it back: whether the
+    # capture is active must not be read off the identity of what is installed
+    for tr in ex.transitions + ex.tampered:
         if tr.dst not in ('IDLE', 'STOPPED'):
             continue
         n += 1
